@@ -69,6 +69,29 @@ func c03Extra() []c03Case {
 			}
 		}
 	}
+	// array ambiguity: a structured pattern element that fits several message elements, next to something
+	// that depends on which one it took (another structured element, the array's variable) - the matcher
+	// keeps the message elements in a map, so which one is tried first is the runtime's choice
+	elems := []interface{}{M{"a": 1.0}, M{}, M{"a": "?"}, M{"a": "??o"}, M{"a": "?y"}, []interface{}{1.0}, M{"a": M{}}}
+	others := []interface{}{"?x", M{"a": 1.0, "b": "?x"}, M{"b": "?x"}, M{"a": "?x"}, M{"a": 1.0, "b": 2.0}, "??o", 1.0}
+	amsgs := [][]interface{}{
+		{M{"a": 1.0}, M{"a": 1.0, "b": 2.0}},
+		{M{"a": 1.0, "b": 2.0}, M{"a": 1.0}},
+		{M{"a": 1.0, "b": 2.0}, M{"a": 1.0, "b": 3.0}},
+		{M{"a": 1.0}, M{"a": 1.0, "b": 2.0}, M{"a": 1.0, "b": 3.0}},
+		{M{"a": 1.0}, M{"a": 1.0}, 1.0},
+		{M{"a": 1.0, "b": 2.0}, M{"a": 2.0, "b": 2.0}, M{"a": 1.0}},
+		{[]interface{}{1.0}, []interface{}{1.0, 2.0}, M{"a": M{"c": 1.0}, "b": 2.0}, M{"a": M{}}},
+	}
+	for _, e := range elems {
+		for _, o := range others {
+			for _, am := range amsgs {
+				out = append(out, c03Case{P: []interface{}{e, o}, M: am, B: M{}})
+				out = append(out, c03Case{P: M{"k": []interface{}{o, e}}, M: M{"k": am}, B: M{}})
+			}
+			out = append(out, c03Case{P: []interface{}{e, e, o}, M: amsgs[3], B: M{}})
+		}
+	}
 	// invalid at one key, merely non-matching at another
 	bad := []interface{}{
 		M{"a": M{"?k": 1.0, "z": 2.0}, "b": "zz"},
@@ -257,7 +280,7 @@ func C03(c *vh.Ctx) {
 	c.Bound("pattern_nodes_max", pmax)
 	c.Bound("message_nodes_max", mmax)
 	c.Bound("deviating_range_executions_max", bound)
-	c.Rule("the C01 triple space at the stated size, plus patterns that use one variable at several places against structured values and patterns that are invalid at one key and merely non-matching at another; for every triple every combination of map-iteration orders with at most k deviating range executions (every `range` over a map in package match is routed through vrange.Keys; all n! orders for n<=4) - the canonical result multiset and the success/error outcome must be the same in all of them; deep snapshots of pattern, message and bindings before/after; returned maps must be distinct objects, independent of the given bindings and of each other; a pattern map that was matched and then edited in place (same size) must match like a freshly built equal map. Race pass (separate -race binary): the same argument objects matched from 3 goroutines with no synchronisation, results equal to the sequential one, ThreadSanitizer silent. states = triples with more than one order, transitions = executions; non-trivial = more than one order explored.")
+	c.Rule("the C01 triple space at the stated size, plus patterns that use one variable at several places against structured values, array patterns whose structured elements fit several message elements next to an element or variable that depends on which was taken, and patterns that are invalid at one key and merely non-matching at another; for every triple every combination of map-iteration orders with at most k deviating range executions (every `range` over a map in package match is routed through vrange.Keys; all n! orders for n<=4) - the canonical result multiset and the success/error outcome must be the same in all of them; deep snapshots of pattern, message and bindings before/after; returned maps must be distinct objects, independent of the given bindings and of each other; a pattern map that was matched and then edited in place (same size) must match like a freshly built equal map. Race pass (separate -race binary): the same argument objects matched from 3 goroutines with no synchronisation, results equal to the sequential one, ThreadSanitizer silent. states = triples with more than one order, transitions = executions; non-trivial = more than one order explored.")
 	var all []c03Case
 	for _, p := range ps.UpTo(pmax) {
 		bs := bindingsFor(p)
